@@ -913,7 +913,21 @@ def rule_r5(ctx) -> List[R.Inst]:
         loops = [n for n in walk_no_nested(fn.node) if isinstance(n, ast.For) and isinstance(n.iter, ast.Call) and
                  call_name(n.iter) == "range"]
         iu, iu_var = _iter_unpack_fields(fn.node)
-        if len(loops) == 1 and len(loops[0].iter.args) == 1 and unparse(loops[0].iter.args[0]) == "event_count":
+        # the slot number counted AFTER events were dropped: enumerate(<filtered>) numbers the kept events 0, 1, 2 …, not their slots
+        late = None
+        for lp_ in walk_no_nested(fn.node):
+            if isinstance(lp_, ast.For) and isinstance(lp_.iter, ast.Call) and call_name(lp_.iter) == "enumerate" and lp_.iter.args and \
+                    isinstance(lp_.target, ast.Tuple) and isinstance(lp_.target.elts[0], ast.Name) and lp_.target.elts[0].id == iv:
+                src_ = _resolve_local(fn.node, lp_.iter.args[0])
+                if (isinstance(src_, (ast.ListComp, ast.GeneratorExp)) and any(g.ifs for g in src_.generators)) or \
+                        (isinstance(src_, ast.Call) and call_name(src_) in ("filter", "filterfalse", "compress", "takewhile", "dropwhile")):
+                    late = (lp_, src_)
+        if late is not None:
+            insts.append(R.viol(rid, f"{meth}:slots", file, late[0].lineno,
+                                f"the slot number '{iv}' is counted by enumerate() over events that were already filtered "
+                                f"('{unparse(late[1])[:70]}'): after a dropped event every later one is numbered one slot early and lands at the "
+                                f"wrong place of the measure", construct=f"enumerate after filter: {unparse(late[1])[:100]}"))
+        elif len(loops) == 1 and len(loops[0].iter.args) == 1 and unparse(loops[0].iter.args[0]) == "event_count":
             insts.append(R.ok(rid, f"{meth}:slots", file, loops[0].lineno, idiom="for i in range(event_count)"))
         elif not loops and _byte_columns(fn.node) is not None and _byte_columns(fn.node)[1] == iv:
             insts.append(R.ok(rid, f"{meth}:slots", file, _byte_columns(fn.node)[0].lineno,
